@@ -52,7 +52,9 @@ Evaluated(ctx) == ctx # "lambda_body"
 CallsForbidden(callee) == callee \in {"user_pure", "user_impure", "user_raises", "unknown", "method",
                                       "user_cond_raise", "user_branch_effect", "user_calls_impure", "user_global_write",
                                       "ctor_plain", "ctor_impure", "shadowed_builtin", "map_impure", "sorted_key_impure",
-                                      "next_user_gen", "user_lambda"}
+                                      "next_user_gen", "user_lambda",
+                                      \* a generator of the module CONSUMED by a builtin: its body runs (creating it alone runs nothing)
+                                      "gen_consumed_list", "gen_consumed_any", "gen_consumed_sum", "gen_delegating_consumed"}
 Binds(form, ctx, callee) == form \in {"assign", "attrset", "itemset", "augassign", "annassign", "del", "for_bind"}
                             \/ (callee = "walrus" /\ Evaluated(ctx))
 Control(form) == form \in {"assert", "raise", "return", "yield"}
